@@ -1,6 +1,9 @@
 package vanguard
 
-import "net/http"
+import (
+	"net/http"
+	"strconv"
+)
 
 // symbolicStream: n symbolic bytes laid out as frames would be (flag, 4 length bytes, payload...),
 // with the three high length bytes assumed zero and the low one < 16 so that lengths stay
@@ -197,8 +200,18 @@ func hC09Resp() {
 	if verifTier() == 1 {
 		maxN = 7
 	}
-	n := verifChoose("streamLen", maxN+1)
+	// either arbitrary bytes up to the bound, or one frame announcing a 7-byte message cut at every offset
+	// (concrete bytes, only the cut point varies: cuts that leave exactly an envelope's length outstanding etc.)
+	structured := verifChoose("structured", 2) == 1
+	n := 0
+	if !structured {
+		n = verifChoose("streamLen", maxN+1)
+	}
 	data := symbolicStream("wire", n)
+	if structured {
+		whole := appendFrame(nil, 0, encodeMsg(codec, wireMsg{abstract: []byte("abcdefg")}))
+		data = whole[:verifChoose("cutAt", len(whole)+1)]
+	}
 	endMode := verifChoose("end", 4) // 0 valid end, 1 no end at all, 2 truncated end, 3 valid end followed by stray bytes in the same Write
 	stray := []byte(nil)
 	if endMode == 3 {
@@ -345,5 +358,76 @@ func hC09Resp() {
 		verifReach("faulty-response")
 		verifAssert(out.code != 0, "C09: a truncated or malformed response never surfaces as success")
 		verifAssert(len(out.msgs) <= len(frames), "C09: no message is fabricated from partial data")
+	}
+}
+
+// hC09UnaryCut: unary responses between an enveloped and an un-enveloped side, same codec (pure re-framing):
+// the backend announces a 7-byte message - by its envelope (gRPC backend) or by Content-Length (Connect unary
+// backend) -, claims success, but delivers only the first k bytes, for every k. The client must never see a
+// success: a truncated message is not a message.
+func hC09UnaryCut() {
+	cfg := &pipeCfg{maxMsg: 64, kind: fkUnary, clientCodec: CodecProto, svcCodecs: []string{CodecProto}}
+	pairing := verifChoose("pairing", 4)
+	switch pairing {
+	case 0:
+		cfg.client, cfg.svcProtos = cfGRPC, []Protocol{ProtocolConnect}
+	case 1:
+		cfg.client, cfg.svcProtos = cfGRPCWeb, []Protocol{ProtocolConnect}
+	case 2:
+		cfg.client, cfg.svcProtos = cfConnectUnary, []Protocol{ProtocolGRPC}
+	default:
+		cfg.client, cfg.svcProtos = cfConnectStream, []Protocol{ProtocolGRPC}
+		cfg.kind = fkBidi
+	}
+	p := newPipe(cfg)
+	if !p.buildOK {
+		return
+	}
+	target, codec, _ := refNegotiate(cfg)
+	payload := encodeMsg(codec, wireMsg{abstract: []byte("abcdefg")})
+	whole := payload
+	if target == ProtocolGRPC {
+		whole = appendFrame(nil, 0, payload)
+	}
+	cut := verifChoose("delivered", len(whole)+1)
+	p.tr.methods[pipePath].handler = http.HandlerFunc(func(w http.ResponseWriter, r *http.Request) {
+		readAllSized(r.Body, 16, 100)
+		w.Header().Set("Content-Type", p.backendContentType())
+		if target == ProtocolConnect {
+			w.Header().Set("Content-Length", strconv.Itoa(len(whole)))
+		}
+		w.WriteHeader(200)
+		if cut > 3 {
+			w.Write(whole[:3])
+			w.Write(whole[3:cut])
+		} else {
+			w.Write(whole[:cut])
+		}
+		if target == ProtocolGRPC {
+			w.Header().Set(http.TrailerPrefix+"Grpc-Status", "0")
+		}
+	})
+	p.serve([]wireMsg{{abstract: []byte{'q'}}})
+	out := refParseClientResponse(cfg, p.sink, true)
+	verifObsInt("client-code", int64(out.code))
+	verifObsInt("status", int64(p.sink.status))
+	verifObsStr("grpc-status-trailer", p.sink.trailers().Get("Grpc-Status"))
+	verifReach("unary-response-cut")
+	if cut == len(whole) {
+		verifReach("unary-response-complete")
+		verifAssert(out.valid && out.code == 0 && len(out.msgs) == 1 && bytesEq(out.msgs[0], []byte("abcdefg")), "C09: a complete unary response is delivered intact")
+		return
+	}
+	if cut == 0 && target == ProtocolGRPC {
+		// no envelope was sent, so no message was announced: a gRPC backend that answers OK without any message
+		// is a different question (cardinality), left open here
+		verifReach("nothing-announced")
+		return
+	}
+	success := out.valid && out.code == 0
+	verifAssert(!success, "C09: a unary response cut short of its announced length never surfaces as success")
+	if cfg.client == cfGRPC {
+		st := p.sink.trailers().Get("Grpc-Status")
+		verifAssert(st != "" && st != "0", "C09: a truncated unary response ends with an error status")
 	}
 }
